@@ -23,6 +23,8 @@ def lookup(it, path, fnref):
     m = MODELS.get(path)
     if m is not None:
         return m
+    if path == getattr(it.facts, "to_right_path", None) and path is not None:
+        return MODELS["prefix_trie::to_right"]
     # Prefix trait methods on an abstract prefix type (call not resolved to an impl)
     if path.startswith("prefix_trie::prefix::Prefix::"):
         name = path.rsplit("::", 1)[1]
